@@ -6,7 +6,7 @@ import subprocess
 
 from . import refinterp as I
 from . import refparse as P
-from .common import HYEONG, WORK, Stats, Violation, collect, finish, pmap, child_setup, strip_sgr
+from .common import HYEONG, WORK, Stats, Violation, collect, finish, pmap, child_setup, strip_sgr, run_chunked
 from .eng_optdiff import big, push_value
 
 FRAGS = [b'\xed\x98\x95', b'\xed\x95\xad.', b'\xed\x9d\x91', b'\xed\x9d\x91.', b'?', b'\xe2\x99\xa5', b'\n', b'a', b'\x00',
@@ -81,10 +81,12 @@ def reads_stdin(text):
     return m.reads > 0
 
 
-def run_bin(args, stdin, cwd):
+def run_bin(args, stdin, cwd, chunk=None):
     env = dict(os.environ)
     env['HYEONG_VERIF_STEPS'] = str(BUDGET)
     env['RUST_BACKTRACE'] = '0'
+    if chunk:
+        return run_chunked([HYEONG] + args, stdin, chunk, env=env, timeout=30, cwd=cwd)
     try:
         p = subprocess.run(preexec_fn=child_setup, args=[HYEONG] + args, input=stdin, stdout=subprocess.PIPE, stderr=subprocess.PIPE, cwd=cwd, env=env,
                            timeout=30)
@@ -310,11 +312,11 @@ def stdin_task(stdins):
             f.write(text)
         for sin in stdins:
             exp = predict(text, sin)
-            for lv in (0, 1, 2):
-                rc, out, err = run_bin(['run', '-O%d' % lv, '--color', 'never', path], sin, d)
+            for lv, chunk in ((0, None), (1, None), (2, None), (0, 1), (2, 3)):
+                rc, out, err = run_bin(['run', '-O%d' % lv, '--color', 'never', path], sin, d, chunk=chunk)
                 st.inc('execs')
-                judge(st, {'kind': 'stdin', 'prog': text, 'stdin_hex': sin.hex() if len(sin) < 400 else sin[:20].hex() + '..[%d bytes]..' % len(sin) + sin[-8:].hex(),
-                           'cmd': 'run -O%d' % lv}, rc, out, err, exp)
+                judge(st, {'kind': 'stdin', 'prog': text, 'chunk': chunk, 'stdin_hex': sin.hex() if len(sin) < 400 else sin[:20].hex() + '..[%d bytes]..' % len(sin) + sin[-8:].hex(),
+                           'cmd': 'run -O%d' % lv + (' (stdin %d byte(s) per read)' % chunk if chunk else '')}, rc, out, err, exp)
     shutil.rmtree(d, ignore_errors=True)
     return st
 
